@@ -55,6 +55,12 @@ LateCheck(e, owner) ==
   IF \E m \in DOMAIN closedAt : OwnerOf(m) = owner /\ e.ts > closedAt[m] + 1000
     THEN {"C09r_QuietAfterClose"} ELSE {}
 
+\* born: time of the first Start; due: time since which the generation has a reason to end (-1: none yet)
+NewGen == [routines |-> 0, ended |-> FALSE, closed |-> FALSE, cause |-> FALSE, lastHb |-> -1, born |-> -1, due |-> -1]
+Due(g, now) == IF g.due < 0 /\ ~g.ended THEN [g EXCEPT !.due = now] ELSE g
+\* C15 "ends it promptly": a generation that got a reason to end more than Grace ms ago has ended
+Grace == 1500
+Overdue(m, now) == \E k \in DOMAIN gens : k[1] = m /\ gens[k].due >= 0 /\ ~gens[k].ended /\ now - gens[k].due > Grace
 Coord(e) ==
   LET owner == e.owner IN
   CASE e.api = "join" ->
@@ -96,7 +102,7 @@ Coord(e) ==
     [] e.api = "heartbeat" ->
          /\ gens' = [k \in DOMAIN gens |->
                        IF OwnerOf(k[1]) = owner /\ k[2] = e.generation
-                         THEN [gens[k] EXCEPT !.lastHb = e.ts, !.cause = @ \/ e.code # 0] ELSE gens[k]]
+                         THEN (IF e.code # 0 THEN Due([gens[k] EXCEPT !.lastHb = e.ts, !.cause = TRUE], e.ts) ELSE [gens[k] EXCEPT !.lastHb = e.ts]) ELSE gens[k]]
          /\ viol' = viol \cup LateCheck(e, owner)
               \cup (IF \E k \in DOMAIN gens : OwnerOf(k[1]) = owner /\ k[2] = e.generation /\ gens[k].closed
                       THEN {"C15_NoHeartbeatAfterEnd"} ELSE {})
@@ -113,7 +119,7 @@ RStart(e) ==
       f == Get(fetched, owner, <<>>)
       offs == e.offsets IN
   /\ stream' = Put(stream, <<e.m, e.ver>>, [k \in DOMAIN offs |-> [start |-> offs[k], hw |-> Get(stored, k, 0), got |-> <<>>]])
-  /\ viol' = viol \cup (IF \E k \in DOMAIN offs : offs[k] # (IF Get(f, k, -1) >= 0 THEN f[k] ELSE cfg.startOffset)
+  /\ viol' = viol \cup (IF ("!failed" \in DOMAIN f /\ DOMAIN offs # {}) \/ \E k \in DOMAIN offs : offs[k] # (IF Get(f, k, -1) >= 0 THEN f[k] ELSE cfg.startOffset)
                           THEN {"C03_StartAtCommit"} ELSE {})
   /\ UNCHANGED <<tid, cfg, stored, committed, asked, delivered, fetched, pending, reading, closedAt, joined, left, faulted, gens, lastFail, closing>>
 
@@ -133,17 +139,16 @@ Deliver(e) ==
   /\ UNCHANGED <<tid, cfg, stored, committed, fetched, pending, reading, closedAt, joined, left, faulted, gens, lastFail, closing>>
 
 GenKey(e) == <<e.m, e.gen>>
-NewGen == [routines |-> 0, ended |-> FALSE, closed |-> FALSE, cause |-> FALSE, lastHb |-> -1]
 GenUpd(e) ==
   LET k == GenKey(e)
       g0 == Get(gens, k, NewGen) IN
   CASE e.ev = "gstart" ->
-         /\ gens' = Put(gens, k, [g0 EXCEPT !.routines = IF e.tracked THEN e.routines ELSE @])
+         /\ gens' = Put(gens, k, [g0 EXCEPT !.routines = IF e.tracked THEN e.routines ELSE @, !.born = IF @ < 0 THEN e.ts ELSE @])
          /\ UNCHANGED viol
     [] e.ev = "gfnexit" ->
          /\ gens' = Put(gens, k, [g0 EXCEPT !.routines = e.routines, !.ended = TRUE])
          \* the first function to return ends the generation: there must be a cause for it
-         /\ viol' = viol \cup (IF ~e.wasClosed /\ ~g0.cause /\ e.m \notin closing THEN {"C15_EndCauses"} ELSE {})
+         /\ viol' = viol \cup (IF ~e.wasClosed /\ ~g0.cause /\ ~cfg.gone /\ e.m \notin closing THEN {"C15_EndCauses"} ELSE {})
     [] e.ev = "gclose" ->
          /\ gens' = Put(gens, k, [g0 EXCEPT !.ended = TRUE])
          /\ viol' = viol \cup (IF ~e.wasClosed /\ e.m \notin closing THEN {"C15_EndCauses"} ELSE {})
@@ -156,7 +161,8 @@ Upd(e) ==
   CASE e.ev = "cfg" ->
          /\ tid' = e.id /\ cfg' = [mode |-> e.mode, startOffset |-> e.startOffset, sync |-> e.sync,
                                    heartbeatMs |-> (IF e.heartbeatMs = 0 THEN 25 ELSE e.heartbeatMs),
-                                   backoffMs |-> (IF e.backoffMs = 0 THEN 60 ELSE e.backoffMs)]
+                                   backoffMs |-> (IF e.backoffMs = 0 THEN 60 ELSE e.backoffMs), watch |-> e.watch,
+                                   gone |-> FALSE]   \* a watched topic was deleted: every new generation's watcher returns at once
          /\ stored' = e.stored
          /\ committed' = [k \in DOMAIN e.stored |-> -1] /\ asked' = [k \in DOMAIN e.stored |-> -1]
          /\ delivered' = [k \in DOMAIN e.stored |-> {}]
@@ -165,11 +171,13 @@ Upd(e) ==
     [] e.ev = "coord" -> Coord(e)
     [] e.ev = "injected" ->
          /\ faulted' = IF e.api \in {"findcoordinator", "leave"} THEN faulted \cup {e.owner} ELSE faulted
-         /\ lastFail' = IF e.api \in {"join", "sync", "findcoordinator", "offsetfetch"} /\ e.code # 27 THEN Put(lastFail, e.owner, e.ts) ELSE lastFail
+         /\ lastFail' = IF e.api \in {"join", "sync"} /\ e.code # 27 THEN Put(lastFail, e.owner, e.ts) ELSE lastFail
          /\ gens' = IF e.api = "heartbeat"
-                      THEN [k \in DOMAIN gens |-> IF OwnerOf(k[1]) = e.owner /\ ~gens[k].ended THEN [gens[k] EXCEPT !.cause = TRUE] ELSE gens[k]]
+                      THEN [k \in DOMAIN gens |-> IF OwnerOf(k[1]) = e.owner /\ ~gens[k].ended THEN Due([gens[k] EXCEPT !.cause = TRUE], e.ts) ELSE gens[k]]
                       ELSE gens
-         /\ UNCHANGED <<tid, cfg, stored, committed, asked, delivered, fetched, stream, pending, reading, closedAt, joined, left, closing, viol>>
+         \* a failed OffsetFetch: the member does not know the group's commits until it has asked again
+         /\ fetched' = IF e.api = "offsetfetch" THEN Put(fetched, e.owner, [x \in {"!failed"} |-> 0]) ELSE fetched
+         /\ UNCHANGED <<tid, cfg, stored, committed, asked, delivered, stream, pending, reading, closedAt, joined, left, closing, viol>>
     [] e.ev = "evict" ->
          /\ joined' = Put(joined, OwnerOf(e.m), "")
          /\ UNCHANGED <<tid, cfg, stored, committed, asked, delivered, fetched, stream, pending, reading, closedAt, left, faulted, gens, lastFail, closing, viol>>
@@ -204,7 +212,8 @@ Upd(e) ==
          /\ UNCHANGED <<tid, cfg, committed, asked, delivered, fetched, stream, pending, reading, closedAt, joined, left, faulted, gens, lastFail, closing, viol>>
     [] e.ev = "close.call" ->
          /\ closing' = closing \cup {e.m}
-         /\ UNCHANGED <<tid, cfg, stored, committed, asked, delivered, fetched, stream, pending, reading, closedAt, joined, left, faulted, gens, lastFail, viol>>
+         /\ viol' = viol \cup (IF Overdue(e.m, e.ts) THEN {"C15_EndsOnCause"} ELSE {})
+         /\ UNCHANGED <<tid, cfg, stored, committed, asked, delivered, fetched, stream, pending, reading, closedAt, joined, left, faulted, gens, lastFail>>
     [] e.ev = "close.return" ->
          /\ closedAt' = Put(closedAt, e.m, e.ts)
          \* the group it had joined is left (unless the coordinator could not be reached because of an injected fault)
@@ -220,11 +229,14 @@ Upd(e) ==
          /\ GenUpd(e)
          /\ UNCHANGED <<tid, cfg, stored, committed, asked, delivered, fetched, stream, pending, reading, closedAt, joined, left, faulted, lastFail, closing>>
     [] e.ev = "fn.exit" /\ e.why = "own" ->
-         /\ gens' = Put(gens, GenKey(e), [Get(gens, GenKey(e), NewGen) EXCEPT !.cause = TRUE])
+         /\ gens' = Put(gens, GenKey(e), Due([Get(gens, GenKey(e), NewGen) EXCEPT !.cause = TRUE], e.ts))
          /\ UNCHANGED <<tid, cfg, stored, committed, asked, delivered, fetched, stream, pending, reading, closedAt, joined, left, faulted, lastFail, closing, viol>>
     [] e.ev = "addpartition" ->
-         /\ gens' = [k \in DOMAIN gens |-> [gens[k] EXCEPT !.cause = TRUE]]
-         /\ UNCHANGED <<tid, cfg, stored, committed, asked, delivered, fetched, stream, pending, reading, closedAt, joined, left, faulted, lastFail, closing, viol>>
+         /\ cfg' = IF cfg.watch /\ "how" \in DOMAIN e /\ e.how = "deleted" THEN [cfg EXCEPT !.gone = TRUE] ELSE cfg
+         \* with WatchPartitionChanges, a generation whose watcher had time to read the old partition count must end
+         /\ gens' = [k \in DOMAIN gens |-> IF cfg.watch /\ gens[k].born >= 0 /\ e.ts - gens[k].born > 150
+                                             THEN Due([gens[k] EXCEPT !.cause = TRUE], e.ts) ELSE [gens[k] EXCEPT !.cause = TRUE]]
+         /\ UNCHANGED <<tid, stored, committed, asked, delivered, fetched, stream, pending, reading, closedAt, joined, left, faulted, lastFail, closing, viol>>
     [] e.ev = "next.return" ->
          \* Next hands out a generation only when every tracked function of the earlier ones has returned
          /\ viol' = viol \cup (IF \E k \in DOMAIN gens : k[1] = e.m /\ k[2] < e.gen /\ gens[k].routines # 0
@@ -256,6 +268,7 @@ C03_AtLeastOnce == "C03_AtLeastOnce" \notin viol
 C15_NextWaits == "C15_NextWaits" \notin viol
 C15_CloseWaits == "C15_CloseWaits" \notin viol
 C15_EndCauses == "C15_EndCauses" \notin viol
+C15_EndsOnCause == "C15_EndsOnCause" \notin viol
 C15_NoHeartbeatAfterEnd == "C15_NoHeartbeatAfterEnd" \notin viol
 C15_HeartbeatInterval == "C15_HeartbeatInterval" \notin viol
 C15_LeaveOnClose == "C15_LeaveOnClose" \notin viol
